@@ -41,6 +41,8 @@ func JoinRun(m *MultiBucket, writers, opsEach, keys int, r *rng.R) (JoinResult, 
 		}
 	}
 	var acked atomic.Int64
+	var onceMu sync.Mutex
+	var onceKeys []string // keys written exactly once (by the replicating writers)
 	stop := make(chan struct{})
 	var wg sync.WaitGroup
 	var starterGoid atomic.Uint64
@@ -82,6 +84,13 @@ func JoinRun(m *MultiBucket, writers, opsEach, keys int, r *rng.R) (JoinResult, 
 						mcas = now
 					}
 					mcas = (mcas+uint64(1+wr.Intn(500))*0x10000)&^0xFFFF | uint64(0x8001+wr.Intn(0x7000))
+					if wr.Bool() {
+						// ... into a key of its own, written once: that version is the key's final one, so it must arrive
+						key, cur = fmt.Sprintf("m%d_%d", wi, i), 0
+						onceMu.Lock()
+						onceKeys = append(onceKeys, key)
+						onceMu.Unlock()
+					}
 					ok = c.SetWithMeta(ctxBG, key, cur, mcas, 0, nil, []byte(fmt.Sprintf(`{"v":"m%d.%d"}`, wi, i)), sgbucket.FeedDataTypeJSON) == nil
 				} else {
 					_, cas, ok, _ = writerOp(c, wr, key, fmt.Sprintf("w%d.%d", wi, i), last, true)
@@ -151,6 +160,7 @@ func JoinRun(m *MultiBucket, writers, opsEach, keys int, r *rng.R) (JoinResult, 
 	for i := 0; i < keys; i++ {
 		names = append(names, fmt.Sprintf("k%d", i), fmt.Sprintf("nk%d", i))
 	}
+	names = append(names, onceKeys...)
 	for _, k := range names {
 		out := Call(col, In{Kind: OGetX, Key: k})
 		var final uint64
